@@ -31,7 +31,7 @@ var baseGroups = map[string]baseGroup{
 	}, nil,
 		"no state survives from one call to the next or is shared between concurrent calls: recycled validators/buffers are fully re-initialised and released last, no package-level variable is written on a validation path (rules C11-POOL, C11-GLOBAL)", 10},
 	"ALIAS": {"ALIAS", "C12", runC12Unsafe, nil,
-		"text handed out by the splitter never aliases a buffer that is written or recycled afterwards (rule C12-UNSAFE)", 3},
+		"text handed out by the splitter never aliases a buffer that is written or recycled afterwards (rule C12-UNSAFE)", 1},
 	"LOOP": {"LOOP", "C02", runC02Loop, nil,
 		"every walker evaluates every rule item of every field/entry: its loops leave only through their headers (rule C02-LOOP)", 4},
 	"TEXT": {"TEXT", "C14", func(c *Ctx) {
